@@ -25,13 +25,12 @@ Theorem C06_number_partial : forall n, undec (dec n) = Some n.
 Proof. exact undec_dec. Qed.
 
 (** a two-step example with a foreign spelling (prefix notation on IOS) *)
+Definition c06_example : res (string * string) :=
+  let c := mkCfg Ios false false false 16 in
+  do t1 <- parse_ace_text c "permit tcp 10.0.0.1/24 eq 80 443 any eq 22 log";
+  let l1 := render_ace c t1 in
+  do t2 <- parse_ace_text c l1; Ok (l1, render_ace c t2).
 Example C06_nonvacuous :
-  exists t1 t2,
-    parse_ace_text (mkCfg Ios false false false 16) "permit tcp 10.0.0.1/24 eq 80 443 any eq 22 log" = Ok t1 /\
-    render_ace (mkCfg Ios false false false 16) t1 = "permit tcp 10.0.0.0 0.0.0.255 eq www 443 any eq 22 log" /\
-    parse_ace_text (mkCfg Ios false false false 16) (render_ace (mkCfg Ios false false false 16) t1) = Ok t2 /\
-    render_ace (mkCfg Ios false false false 16) t2 = render_ace (mkCfg Ios false false false 16) t1.
-Proof.
-  eexists. eexists. split; [vm_compute; reflexivity|]. split; [vm_compute; reflexivity|].
-  split; vm_compute; reflexivity.
-Qed.
+  c06_example = Ok ("permit tcp 10.0.0.0 0.0.0.255 eq www 443 any eq 22 log",
+                    "permit tcp 10.0.0.0 0.0.0.255 eq www 443 any eq 22 log").
+Proof. vm_compute. reflexivity. Qed.
